@@ -62,6 +62,10 @@ class Contract:
         self.name = node.name
         self.ghost_def = False  # interface contract whose ensures only *define* ghost functions of the receiver: holds for every implementation
         self.may_raise: list = []  # exceptions the function may raise under an unspecified condition (outside the contract's domain)
+        # {callee qualified name: [ensures clause names]}: inside this function only the listed postconditions of
+        # that callee are assumed after a call (assuming fewer postconditions is always sound; it keeps the
+        # solver's context small - the callee may state a clause in an opaque form for this purpose)
+        self.callee_clauses: dict = {}
         for st in node.body:
             if isinstance(st, ast.FunctionDef):
                 if st.name in ("requires", "ensures", "raises", "modifies", "raises_ensures"):
@@ -75,7 +79,7 @@ class Contract:
                 n = st.targets[0].id
                 if n == "types":
                     self.types = ast.literal_eval(st.value)
-                elif n in ("returns", "self_class", "may_raise"):
+                elif n in ("returns", "self_class", "may_raise", "callee_clauses"):
                     setattr(self, n, ast.literal_eval(st.value))
                 elif n in ("inline", "pure_inline", "exact_self", "trusted", "interface", "ghost_def"):
                     setattr(self, n, bool(ast.literal_eval(st.value)))
@@ -417,7 +421,13 @@ class ContractDB:
             e2 = dict(env)
             e2["result"] = result
             nfr = self.contract_frame(it, con, self.fn_env(con.ensures, e2), fr, old_heap=old_heap, old_env=env)
+            sel = getattr(fr.contract, "callee_clauses", {}).get(fi.qname) if getattr(fr, "contract", None) is not None else None
             for name, term in self.eval_clauses_fn(it, con.ensures, nfr):
+                if name.startswith("D_"):
+                    continue        # unfolding of an opaque definition, local to the callee's own proof
+                if sel is not None and name.split("#")[0] not in sel:
+                    it.notes.add(f"postcondition {name} of {fi.qname} not used in this function (callee_clauses)")
+                    continue
                 it.assume(term)
         self._assume_ghost_defs(it, con, fi, env, result, fr, old_heap)
         return result
